@@ -31,11 +31,12 @@ def unreset : List (String × String) :=
   ++ (if resetClearsAll && cacheRegisters then [] else [("cache", "reset")])
   ++ (if setSizeReregisters then [] else [("cache", "set_size")])
 
-/-- known findings of the pinned tree (rows 5–8, 37 of DESIGN §6) -/
+/-- the mutation paths that still do not reset: in-place mutation of a value stored in a wrapped registry
+    (known finding KF36, row 36 of DESIGN section 6).  Rows 12 and 37 (`__delitem__`, `settings.errors`,
+    `settings.base_schema`, `_schemas`, `set_size`) have been repaired: if one of them comes back the generated table
+    changes and this theorem no longer checks. -/
 def knownUnreset : List (String × String) :=
-  [("CacheAwareDict", "__delitem__"), ("settings", "settings.base_schema"), ("settings", "settings.errors"),
-   ("registry", "apischema.schemas._schemas"), ("cache", "set_size"),
-   ("nested", "apischema.dependencies._dependent_requireds"),
+  [("nested", "apischema.dependencies._dependent_requireds"),
    ("nested", "apischema.graphql.resolvers._resolvers"),
    ("nested", "apischema.validation.validators._validators"),
    ("nested", "apischema.serialization.serialized_methods._serialized_methods")]
